@@ -307,14 +307,8 @@ def _anc(n):
 
 
 def _loopenv(lp) -> dict:
-    if lp is None:
-        return {}
-    cnt, env = {}, {}
-    for n in ast.walk(lp):
-        if isinstance(n, ast.Assign) and len(n.targets) == 1 and isinstance(n.targets[0], ast.Name):
-            cnt[n.targets[0].id] = cnt.get(n.targets[0].id, 0) + 1
-            env[n.targets[0].id] = n.value
-    return {k: v for k, v in env.items() if cnt[k] == 1}
+    from ..util import loop_env
+    return loop_env(lp)
 
 
 def _ready_form(e: ast.expr, pv: Optional[str]):
